@@ -899,6 +899,132 @@ fn c10_equal_timestamps(dir: PathBuf) -> ScenFut<'static> {
     })
 }
 
+/// One transaction overwrites its own pending write across a savepoint: both writes are applied,
+/// with the same commit timestamp. The time-travel read at or after that timestamp must agree
+/// with the plain read.
+fn c10_overwrite_across_savepoint(dir: PathBuf) -> ScenFut<'static> {
+    Box::pin(async move {
+        for index in [false, true] {
+            for second in ["set", "soft delete"] {
+                let d = dir.join(format!("{}-{}", if index { "index" } else { "lsm" }, second.replace(' ', "_")));
+                let t = ver_cfg(index).open(&d).map_err(|e| e.to_string())?;
+                {
+                    let mut tx = t.begin().map_err(|e| e.to_string())?;
+                    tx.set(&b"k"[..], &b"a"[..]).map_err(|e| e.to_string())?;
+                    tx.set_savepoint().map_err(|e| e.to_string())?;
+                    if second == "set" {
+                        tx.set(&b"k"[..], &b"b"[..]).map_err(|e| e.to_string())?;
+                    } else {
+                        tx.soft_delete(&b"k"[..]).map_err(|e| e.to_string())?;
+                    }
+                    tx.commit().await.map_err(|e| e.to_string())?;
+                }
+                let what = format!("version index {}: one transaction: set k = a; set_savepoint; {} k; commit", if index { "on" } else { "off" }, if second == "set" { "set k = b," } else { "soft delete" });
+                for phase in ["before flush", "after flush", "after reopen"] {
+                    if phase == "after flush" {
+                        t.verif_flush().map_err(|e| e.to_string())?;
+                    }
+                    let plain = get1(&t, b"k")?;
+                    let at = get_at(&t, b"k", u64::MAX).await.map_err(|e| format!("{what}; {phase}: get_at fails: {e}"))?;
+                    if plain != at {
+                        let s = |v: &Option<Vec<u8>>| v.as_ref().map(|v| String::from_utf8_lossy(v).to_string());
+                        return Err(format!("{what}; {phase}: get(k) = {:?} but get_at(k, u64::MAX) = {:?} (both writes carry the commit timestamp; the time-travel read prefers the one issued first)", s(&plain), s(&at)));
+                    }
+                    if phase == "after flush" {
+                        break;
+                    }
+                }
+                close(t).await;
+                let t = ver_cfg(index).open(&d).map_err(|e| format!("{what}; reopen: {e}"))?;
+                let plain = get1(&t, b"k")?;
+                let at = get_at(&t, b"k", u64::MAX).await.map_err(|e| format!("{what}; after reopen: get_at fails: {e}"))?;
+                close(t).await;
+                if plain != at {
+                    return Err(format!("{what}; after reopen: get(k) and get_at(k, u64::MAX) differ"));
+                }
+                let _ = std::fs::remove_dir_all(&d);
+            }
+        }
+        Ok(())
+    })
+}
+
+/// A reader is open while a replace (or delete / set / delete) of a key it reads is committed;
+/// then flush and compaction. The reader's snapshot does not hold the barrier: its time-travel
+/// reads and its history must not change under it. A reader begun afterwards sees the barrier.
+fn c10_barrier_committed_after_reader(dir: PathBuf) -> ScenFut<'static> {
+    Box::pin(async move {
+        for variant in ["replace", "delete, set, delete"] {
+            let d = dir.join(variant.replace([' ', ','], "_"));
+            let cfg = Cfg { level_count: 2, l0_max_files: 2, max_bytes_for_level: 1 << 20, ..ver_cfg(false) };
+            let t = cfg.open(&d).map_err(|e| e.to_string())?;
+            for (ts, v) in [(10u64, &b"v1"[..]), (20, b"v2"), (30, b"v3")] {
+                set_at(&t, b"k", v, ts).await?;
+            }
+            t.verif_flush().map_err(|e| e.to_string())?;
+            let reader = t.begin_with_mode(Mode::ReadOnly).map_err(|e| e.to_string())?;
+            let observe = |tx: &surrealkv::Transaction| -> Result<(Vec<Option<Vec<u8>>>, Vec<u64>), String> {
+                let mut reads = vec![];
+                for at in [5u64, 10, 15, 20, 25, 30, 35] {
+                    reads.push(tx.get_at(&b"k"[..], at).map_err(|e| format!("get_at(k, {at}): {e}"))?);
+                }
+                let o = surrealkv::HistoryOptions::new().with_tombstones(true);
+                let mut it = tx.history_with_options(&b"a"[..], &b"z"[..], &o).map_err(|e| e.to_string())?;
+                let mut hist = vec![];
+                let mut ok = it.seek_first().map_err(|e| e.to_string())?;
+                while ok && it.valid() {
+                    hist.push(it.key().timestamp());
+                    ok = it.next().map_err(|e| e.to_string())?;
+                }
+                Ok((reads, hist))
+            };
+            let before = observe(&reader)?;
+            if before.1 != vec![30, 20, 10] {
+                return Err(format!("harness: the reader lists {:?} before anything happened", before.1));
+            }
+            if variant == "replace" {
+                let mut tx = t.begin_with_mode(Mode::WriteOnly).map_err(|e| e.to_string())?;
+                tx.replace(&b"k"[..], &b"r4"[..]).map_err(|e| e.to_string())?;
+                tx.commit().await.map_err(|e| e.to_string())?;
+            } else {
+                del(&t, b"k").await?;
+                put(&t, &[(b"k", b"v5")]).await?;
+                del(&t, b"k").await?;
+            }
+            t.verif_flush().map_err(|e| e.to_string())?;
+            let after_flush = observe(&reader)?;
+            let mut rounds = 0;
+            while rounds < 8 && t.verif_compact_once().map_err(|e| e.to_string())? {
+                rounds += 1;
+            }
+            if rounds == 0 {
+                return Err("harness: no compaction ran".into());
+            }
+            let after_compaction = observe(&reader)?;
+            // a reader begun now sees the barrier: nothing of v1..v3 is left for it
+            let late = {
+                let tx = t.begin_with_mode(Mode::ReadOnly).map_err(|e| e.to_string())?;
+                observe(&tx)?
+            };
+            drop(reader);
+            close(t).await;
+            let show = |o: &(Vec<Option<Vec<u8>>>, Vec<u64>)| format!("get_at(k, 5/10/15/20/25/30/35) = {:?}, history timestamps {:?}", o.0.iter().map(|v| v.as_ref().map(|v| String::from_utf8_lossy(v).to_string())).collect::<Vec<_>>(), o.1);
+            let what = format!("k = v1 @10, v2 @20, v3 @30, flushed; a read-only transaction begins; then {variant} of k is committed; flush; {rounds} compaction round(s)");
+            if after_flush != before {
+                return Err(format!("{what}: the open transaction read {} before and {} after the flush", show(&before), show(&after_flush)));
+            }
+            if after_compaction != before {
+                return Err(format!("{what}: the open transaction read {} before and {} after the compaction", show(&before), show(&after_compaction)));
+            }
+            if late.0[..6].iter().any(|v| v.is_some()) || late.1.iter().any(|ts| *ts <= 30) {
+                return Err(format!("{what}: a transaction begun after all that still reads erased versions: {}", show(&late)));
+            }
+            let _ = std::fs::remove_dir_all(&d);
+        }
+        Ok(())
+    })
+}
+
 fn c10_compaction_resurrects_erased_version(dir: PathBuf) -> ScenFut<'static> {
     Box::pin(async move {
         let cfg = Cfg { level_count: 3, l0_max_files: 1, max_bytes_for_level: 1 << 20, ..ver_cfg(false) };
@@ -975,6 +1101,152 @@ fn c10_ts_range_out_of_order_memtable(dir: PathBuf) -> ScenFut<'static> {
         }
         if rng != vec![(b"k".to_vec(), 100)] {
             return Err(format!("k: set@100 then set@50 (out of order, unflushed); history restricted to [90,110] lists {:?} instead of the version at 100", rng));
+        }
+        Ok(())
+    })
+}
+
+/// A history cursor is open on an open transaction when an older version it lists leaves the
+/// retention window; compaction drops the version and the clean-up removes its value-log file.
+fn c11_history_cursor_outlives_retention(dir: PathBuf) -> ScenFut<'static> {
+    Box::pin(async move {
+        use std::sync::atomic::{AtomicU64, Ordering};
+        let clock = std::sync::Arc::new(crate::e1::ManualClock(AtomicU64::new(1000)));
+        // every flush ends up in a value-log file of its own
+        let cfg = Cfg { l0_max_files: 2, retention: 5000, vlog_max_file: 64, ..ver_cfg(false) };
+        let t = cfg.open_with_clock(&dir, clock.clone()).map_err(|e| e.to_string())?;
+        let v1 = vec![0x11u8; 300];
+        let v2 = vec![0x22u8; 300];
+        set_at(&t, b"k", &v1, 1000).await?;
+        t.verif_flush().map_err(|e| e.to_string())?;
+        clock.0.store(2000, Ordering::SeqCst);
+        set_at(&t, b"k", &v2, 2000).await?;
+        t.verif_flush().map_err(|e| e.to_string())?;
+        let reader = t.begin_with_mode(Mode::ReadOnly).map_err(|e| e.to_string())?;
+        let mut hist = reader.history(&b"k"[..], &b"l"[..]).map_err(|e| e.to_string())?;
+        if !hist.seek_first().map_err(|e| e.to_string())? || hist.key().timestamp() != 2000 {
+            return Err("harness: the history cursor does not start at the version of time 2000".into());
+        }
+        let first = hist.value().map_err(|e| format!("value of the newest version: {e}"))?;
+        // version 1 leaves the retention window; one compaction round with its clean-up
+        clock.0.store(1_000_000, Ordering::SeqCst);
+        if !t.verif_compact_once().map_err(|e| e.to_string())? {
+            return Err("harness: no compaction ran".into());
+        }
+        let moved = hist.next().map_err(|e| format!("next() on the open history cursor: {e}"))?;
+        let res = if moved && hist.valid() && hist.key().timestamp() == 1000 {
+            match hist.value() {
+                Ok(v) if v == v1 => Ok(()),
+                Ok(v) => Err(format!("the cursor returns {} bytes that are not the value written", v.len())),
+                Err(e) => Err(format!("the cursor lists the version of time 1000 and reading its value fails: {e}")),
+            }
+        } else {
+            // not listing the expired version is fine
+            Ok(())
+        };
+        drop(hist);
+        drop(reader);
+        close(t).await;
+        if first != v2 {
+            return Err("the newest version was not returned byte for byte".into());
+        }
+        res.map_err(|e| format!("retention 5000, k = 300 bytes @1000 and @2000, each flushed into a value-log file of its own; a transaction opens a history cursor and reads the newer version; the clock moves to 1000000 and one compaction round runs (drops the expired version, the clean-up removes its value-log file) while the transaction is open: {e}"))
+    })
+}
+
+/// Version index on, the timestamps of a key's versions not in commit order; a history listing
+/// is taken while the memtable's flush stands between its index update and its manifest switch.
+fn c10_history_during_flush_out_of_order(dir: PathBuf) -> ScenFut<'static> {
+    Box::pin(async move {
+        let res = std::thread::spawn(move || -> Result<(), String> {
+            let rt = tokio::runtime::Builder::new_multi_thread().worker_threads(4).enable_all().build().map_err(|e| e.to_string())?;
+            rt.block_on(async move {
+                let t = std::sync::Arc::new(ver_cfg(true).open(&dir).map_err(|e| e.to_string())?);
+                for (ts, v) in [(20u64, &b"v20"[..]), (30, b"v30"), (10, b"v10")] {
+                    set_at(&t, b"k", v, ts).await?;
+                }
+                let mut before = hist_list(&t, b"a", b"z", false, true, None)?;
+                before.sort_by(|a, b| b.1.cmp(&a.1));
+                t.verif_rotate().map_err(|e| e.to_string())?;
+                let ctl = crate::e3::ctl();
+                ctl.reset();
+                let gate = ctl.arm_gate("flush.after_index");
+                let tf = t.clone();
+                let h = tokio::runtime::Handle::current();
+                let flusher = std::thread::spawn(move || {
+                    let _g = h.enter();
+                    tf.verif_flush_one().map(|_| ()).map_err(|e| e.to_string())
+                });
+                if !gate.wait_parked(5000) {
+                    gate.release();
+                    let _ = flusher.join();
+                    ctl.reset();
+                    return Err("harness: the flush did not reach flush.after_index".into());
+                }
+                let during = hist_list(&t, b"a", b"z", false, true, None);
+                gate.release();
+                let _ = flusher.join();
+                ctl.reset();
+                let mut after = hist_list(&t, b"a", b"z", false, true, None)?;
+                after.sort_by(|a, b| b.1.cmp(&a.1));
+                if let Ok(t) = std::sync::Arc::try_unwrap(t) {
+                    close(t).await;
+                }
+                let what = "version index on; k = v20 @20, v30 @30, v10 @10 committed in that order; the memtable's flush has updated the version index and not yet switched the manifest";
+                let mut during = during.map_err(|e| format!("{what}: the history listing fails: {e}"))?;
+                let raw = during.clone();
+                during.sort_by(|a, b| b.1.cmp(&a.1));
+                let ts = |l: &Vec<(Vec<u8>, u64)>| l.iter().map(|e| e.1).collect::<Vec<_>>();
+                if ts(&before) != vec![30, 20, 10] {
+                    return Err(format!("{what}: before the flush the history lists timestamps {:?}", ts(&before)));
+                }
+                if during != before {
+                    return Err(format!("{what}: a history listing taken now gives timestamps {:?} (before the flush {:?}) - the versions are read from the memtable and from the index, and only adjacent repeats are merged", ts(&raw), ts(&before)));
+                }
+                if after != before {
+                    return Err(format!("{what}: after the flush the history lists timestamps {:?}", ts(&after)));
+                }
+                Ok(())
+            })
+        })
+        .join()
+        .map_err(|_| "scenario thread panicked".to_string())?;
+        res
+    })
+}
+
+/// Version index on: a version written after a hard delete / replace, with an explicit timestamp
+/// older than the barrier's. Whatever the store makes of it, it must be the same before and
+/// after the flush.
+fn c10_older_timestamp_after_barrier(dir: PathBuf) -> ScenFut<'static> {
+    Box::pin(async move {
+        for barrier in ["hard delete", "replace"] {
+            let d = dir.join(barrier.replace(' ', "_"));
+            let t = ver_cfg(true).open(&d).map_err(|e| e.to_string())?;
+            put(&t, &[(b"k", b"v1")]).await?; // commit time: the system clock, far above 500
+            if barrier == "replace" {
+                let mut tx = t.begin_with_mode(Mode::WriteOnly).map_err(|e| e.to_string())?;
+                tx.replace(&b"k"[..], &b"r2"[..]).map_err(|e| e.to_string())?;
+                tx.commit().await.map_err(|e| e.to_string())?;
+            } else {
+                del(&t, b"k").await?;
+            }
+            set_at(&t, b"k", b"old", 500).await?;
+            let observe = |t: &Tree| -> Result<(Option<Vec<u8>>, Vec<u64>), String> {
+                let tx = t.begin_with_mode(Mode::ReadOnly).map_err(|e| e.to_string())?;
+                let g = tx.get_at(&b"k"[..], 600).map_err(|e| format!("get_at(k, 600): {e}"))?;
+                let h = hist_list(t, b"a", b"z", false, false, None)?.into_iter().map(|e| e.1).filter(|ts| *ts <= 600).collect();
+                Ok((g, h))
+            };
+            let before = observe(&t)?;
+            t.verif_flush().map_err(|e| e.to_string())?;
+            let after = observe(&t)?;
+            close(t).await;
+            let _ = std::fs::remove_dir_all(&d);
+            if before != after {
+                let s = |o: &(Option<Vec<u8>>, Vec<u64>)| format!("get_at(k, 600) = {:?}, history entries up to time 600: {:?}", o.0.as_ref().map(|v| String::from_utf8_lossy(v).to_string()), o.1);
+                return Err(format!("version index on; k = v1 at commit time; {barrier} of k at commit time; then k = old with the explicit timestamp 500: before the flush {}; after the flush {}", s(&before), s(&after)));
+            }
         }
         Ok(())
     })
@@ -3871,6 +4143,36 @@ fn c17_cancelled_commits_overflow_queue(dir: PathBuf) -> ScenFut<'static> {
 
 pub fn all() -> Vec<Scenario> {
     vec![
+        Scenario {
+            id: "C10-older-timestamp-after-barrier",
+            property: "C10",
+            title: "version index on: a version with an older explicit timestamp written after a hard delete / replace, before and after flush",
+            run: c10_older_timestamp_after_barrier,
+        },
+        Scenario {
+            id: "C10-history-during-flush-out-of-order",
+            property: "C10",
+            title: "version index on, timestamps out of commit order: history listing between a flush's index update and its manifest switch",
+            run: c10_history_during_flush_out_of_order,
+        },
+        Scenario {
+            id: "C11-history-cursor-outlives-retention",
+            property: "C11",
+            title: "a version listed by an open history cursor leaves the retention window; compaction and value-log clean-up run under the cursor",
+            run: c11_history_cursor_outlives_retention,
+        },
+        Scenario {
+            id: "C10-barrier-committed-after-reader",
+            property: "C10",
+            title: "a replace / hard deletes committed while a reader is open, then flush and compaction: the reader's time-travel reads and history",
+            run: c10_barrier_committed_after_reader,
+        },
+        Scenario {
+            id: "C10-overwrite-across-savepoint",
+            property: "C10",
+            title: "a transaction overwrites its own pending write across a savepoint; get vs get_at afterwards",
+            run: c10_overwrite_across_savepoint,
+        },
         Scenario {
             id: "C07-oversized-first-record-after-memtable-size-reduced",
             property: "C07",
